@@ -34,9 +34,12 @@ WIRE_CTOR = "header::ProtectedHeader::from_cbor_bstr_depth"
 BARE = "<header::ProtectedHeader as common::AsCborValue>::from_cbor_value"
 
 
-def check(ctx):
+def check_constructions(ctx, R="R-1"):
+    """retained wire bytes exist only where a protected header was decoded: every construction of ProtectedHeader is the wire
+    constructor (Some(the bytes it parsed)), a derived Clone / Default, or stores None; the builder setters discard retained
+    bytes; nobody else writes `original_data`.  This is what makes `cbor_bstr` mean "the received bytes for a decoded message
+    and otherwise the encoded map" (C02 R-1; re-run under C03 / C04 / C05 whose statements contain that clause)."""
     prog = ctx.prog
-    # ---- R-1 constructions ------------------------------------------------------------------------------------
     ctors = []
     for f in prog.real_fns():
         pv = None
@@ -77,11 +80,11 @@ def check(ctx):
         else:
             ok = False
             what = "construction of ProtectedHeader with retained bytes outside the wire constructor"
-        ctx.ob("R-1", "ctor:%s" % f.key, ok, "%s: %s" % (f.key, what), where=f.where(bi),
+        ctx.ob(R, "ctor:%s" % f.key, ok, "%s: %s" % (f.key, what), where=f.where(bi),
                detail={"original_data": show(od)[:100] if od else None, "header": show(hd)[:100] if hd else None},
                sample={"fn": f.key, "original_data": show(od)[:80] if od else None} if f.key in (WIRE_CTOR,) else None)
-    ctx.floor("R-1", "ProtectedHeader constructions", len(ctors), 10)
-    ctx.floor("R-1", "builder setters", n_setters, 9)
+    ctx.floor(R, "ProtectedHeader constructions", len(ctors), 10)
+    ctx.floor(R, "builder setters", n_setters, 9)
     # bytes not mutated in the wire constructor
     w = prog.fn(WIRE_CTOR)
     pw = Prov(w)
@@ -89,7 +92,7 @@ def check(ctx):
     for e in pw.effects():
         if e["kind"] == "call" and e["place"][0] == "local" and w.local_ty(e["place"][1]) == "alloc::vec::Vec<u8>":
             muts.append(e["callee"])
-    ctx.ob("R-1", "bytes-not-mutated", not muts, "the extracted byte string is never mutably borrowed between extraction and storage",
+    ctx.ob(R, "bytes-not-mutated", not muts, "the extracted byte string is never mutably borrowed between extraction and storage",
            where=w.span, detail={"mutating_calls": muts})
     # nobody else writes original_data
     writers = []
@@ -100,7 +103,13 @@ def check(ctx):
             for s in subterms(e["place"]):
                 if s[0] == "field" and s[2] == "original_data":
                     writers.append("%s (%s)" % (f.key, f.where(e["bb"])))
-    ctx.ob("R-1", "no-other-writer", not writers, "no function assigns to or mutates the `original_data` field", detail={"writers": writers})
+    ctx.ob(R, "no-other-writer", not writers, "no function assigns to or mutates the `original_data` field", detail={"writers": writers})
+
+
+def check(ctx):
+    prog = ctx.prog
+    # ---- R-1 constructions ------------------------------------------------------------------------------------
+    check_constructions(ctx, "R-1")
 
     # ---- R-2 every wire slot -------------------------------------------------------------------------------------
     carriers = dict((t, STRUCTS[t]) for t in MESSAGE_TYPES)
